@@ -31,12 +31,12 @@ structure Main (s : St) : Prop where
   byp : s.canStartBypass = true → s.consumed = 0 ∧ s.answer = .none ∧ s.out = [] ∧ s.head ≠ .virginClone
   sendV : s.sending = .virgin → s.head = .virginClone ∨ (s.head = .adapted ∧ s.uob.isSome = true)
   taken_le : s.outTaken ≤ s.out.length
+  pipeEnded : (s.outSt = .endedOk ∨ s.outSt = .aborted) → s.vSending.st = .disabled
 
 structure Aux (s : St) : Prop where
   body : s.parsing = .body → s.head = .adapted ∧ s.outSt ≠ .noPipe ∧ s.uob = none
-  cloneS : s.head = .virginClone → s.sending = .virgin ∨ s.sending = .done
-  httpH : s.parsing = .httpHeader → s.sending = .adapted ∧ s.head ≠ .virginClone
-  heads : (s.parsing = .icapHeader ∨ s.parsing = .httpHeader) → s.outSt = .noPipe
+  icapH : s.parsing = .icapHeader → s.head ≠ .virginClone ∧ s.outSt = .noPipe
+  httpH : s.parsing = .httpHeader → s.sending = .adapted ∧ s.head ≠ .virginClone ∧ s.outSt = .noPipe
 
 /-- the fields `Main`, `Aux` and `EndOk` read -/
 structure SameCore (s t : St) : Prop where
@@ -57,9 +57,10 @@ structure SameCore (s t : St) : Prop where
   sending : t.sending = s.sending
   parsing : t.parsing = s.parsing
   outTaken : t.outTaken = s.outTaken
+  vst : t.vSending.st = s.vSending.st
 
 theorem Main.of_same {s t : St} (h : SameCore s t) (hb : t.canStartBypass = true → s.canStartBypass = true) (m : Main s) : Main t := by
-  obtain ⟨h1, h2, h3, h4, h5, h6, h7, h8, h9, h10, h11, h12, h13, h14, h15, h16, h17⟩ := h
+  obtain ⟨h1, h2, h3, h4, h5, h6, h7, h8, h9, h10, h11, h12, h13, h14, h15, h16, h17, h18⟩ := h
   constructor
   · rw [h1, h2]; exact m.put_le
   · rw [h2, h3]; exact m.cons_le
@@ -76,6 +77,7 @@ theorem Main.of_same {s t : St} (h : SameCore s t) (hb : t.canStartBypass = true
   · intro hc; rw [h3, h13, h7, h11]; exact m.byp (hb hc)
   · rw [h15, h11, h8]; exact m.sendV
   · rw [h17, h7]; exact m.taken_le
+  · rw [h6, h18]; exact m.pipeEnded
 
 /-- the fields `Aux` reads -/
 structure SameAux (s t : St) : Prop where
@@ -89,51 +91,57 @@ theorem Aux.of_sameAux {s t : St} (h : SameAux s t) (a : Aux s) : Aux t := by
   obtain ⟨h16, h11, h6, h15, h8⟩ := h
   constructor
   · rw [h16, h11, h6, h8]; exact a.body
-  · rw [h11, h15]; exact a.cloneS
-  · rw [h16, h15, h11]; exact a.httpH
-  · rw [h16, h6]; exact a.heads
+  · rw [h16, h11, h6]; exact a.icapH
+  · rw [h16, h15, h11, h6]; exact a.httpH
 
 theorem SameCore.aux {s t : St} (h : SameCore s t) : SameAux s t := ⟨h.parsing, h.head, h.outSt, h.sending, h.uob⟩
 
 theorem Aux.of_same {s t : St} (h : SameCore s t) (a : Aux s) : Aux t := a.of_sameAux h.aux
 
-theorem SameCore.rfl' (s : St) : SameCore s s := ⟨rfl, rfl, rfl, rfl, rfl, rfl, rfl, rfl, rfl, rfl, rfl, rfl, rfl, rfl, rfl, rfl, rfl⟩
+theorem SameCore.rfl' (s : St) : SameCore s s := ⟨rfl, rfl, rfl, rfl, rfl, rfl, rfl, rfl, rfl, rfl, rfl, rfl, rfl, rfl, rfl, rfl, rfl, rfl⟩
 
 theorem SameCore.trans {s t u : St} (a : SameCore s t) (b : SameCore t u) : SameCore s u :=
   ⟨b.v.trans a.v, b.put.trans a.put, b.consumed.trans a.consumed, b.buf.trans a.buf, b.prodEnded.trans a.prodEnded, b.outSt.trans a.outSt,
    b.out.trans a.out, b.uob.trans a.uob, b.pending.trans a.pending, b.recv.trans a.recv, b.head.trans a.head, b.start.trans a.start,
-   b.answer.trans a.answer, b.lastSeen.trans a.lastSeen, b.sending.trans a.sending, b.parsing.trans a.parsing, b.outTaken.trans a.outTaken⟩
+   b.answer.trans a.answer, b.lastSeen.trans a.lastSeen, b.sending.trans a.sending, b.parsing.trans a.parsing, b.outTaken.trans a.outTaken, b.vst.trans a.vst⟩
 
-/-- `f` keeps `Main` at every exit and `Aux` at its non-throwing exits -/
-def Keeps (f : Op) : Prop := ∀ s, Main s → Aux s → Main (f s) ∧ ((f s).thrown = false → Aux (f s))
+/-- `f` keeps `Main` at every exit (whatever else holds) and `Aux` at its non-throwing exits -/
+def Keeps (f : Op) : Prop := (∀ s, Main s → Main (f s)) ∧ (∀ s, Main s → Aux s → (f s).thrown = false → Aux (f s))
 
 theorem keeps_seq {f g : Op} (hf : Keeps f) (hg : Keeps g) : Keeps (f ;; g) := by
-  intro s m a
-  have h1 := hf s m a
-  show Main (seq f g s) ∧ _
-  unfold seq
-  by_cases ht : (f s).thrown = true
-  · simp only [ht, if_true]; exact ⟨h1.1, fun h => by cases h⟩
-  · have ht' : (f s).thrown = false := by simpa using ht
-    simp only [ht', Bool.false_eq_true, if_false]
-    exact hg _ h1.1 (h1.2 ht')
+  constructor
+  · intro s m
+    show Main (seq f g s)
+    unfold seq; dsimp only; split
+    · exact hf.1 s m
+    · exact hg.1 _ (hf.1 s m)
+  · intro s m a
+    show (seq f g s).thrown = false → Aux (seq f g s)
+    unfold seq; dsimp only
+    by_cases ht : (f s).thrown = true
+    · simp only [ht, if_true]; intro h; cases h
+    · have ht' : (f s).thrown = false := by simpa using ht
+      simp only [ht', Bool.false_eq_true, if_false]
+      exact hg.2 _ (hf.1 s m) (hf.2 s m a ht')
 
 theorem keeps_cond {c : St → Bool} {t e : Op} (ht : Keeps t) (he : Keeps e) : Keeps (cond c t e) := by
-  intro s m a
-  unfold Icap.cond
-  by_cases h : c s = true
-  · simp only [h, if_true]; exact ht s m a
-  · simp only [h]; exact he s m a
+  constructor
+  · intro s m; unfold Icap.cond; split
+    · exact ht.1 s m
+    · exact he.1 s m
+  · intro s m a; unfold Icap.cond; split
+    · exact ht.2 s m a
+    · exact he.2 s m a
 
-theorem keeps_skip : Keeps skip := fun _ m a => ⟨m, fun _ => a⟩
+theorem keeps_skip : Keeps skip := ⟨fun _ m => m, fun _ _ a _ => a⟩
 
 theorem keeps_whenOp {c : St → Bool} {t : Op} (ht : Keeps t) : Keeps (whenOp c t) := keeps_cond ht keeps_skip
 
 /-- an operation that leaves the fields read by the invariants alone -/
 theorem keeps_of_same {f : Op} (h : ∀ s, SameCore s (f s)) (hb : ∀ s, (f s).canStartBypass = true → s.canStartBypass = true) : Keeps f :=
-  fun s m a => ⟨m.of_same (h s) (hb s), fun _ => a.of_same (h s)⟩
+  ⟨fun s m => m.of_same (h s) (hb s), fun s _ a _ => a.of_same (h s)⟩
 
-theorem same_setThrown (s : St) : SameCore s { s with thrown := true } := ⟨rfl, rfl, rfl, rfl, rfl, rfl, rfl, rfl, rfl, rfl, rfl, rfl, rfl, rfl, rfl, rfl, rfl⟩
+theorem same_setThrown (s : St) : SameCore s { s with thrown := true } := ⟨rfl, rfl, rfl, rfl, rfl, rfl, rfl, rfl, rfl, rfl, rfl, rfl, rfl, rfl, rfl, rfl, rfl, rfl⟩
 
 theorem keeps_throwNow : Keeps throwNow := keeps_of_same same_setThrown (fun _ h => h)
 
@@ -143,7 +151,7 @@ theorem keeps_checkConsuming : Keeps checkConsuming := by
   apply keeps_of_same
   · intro s; unfold checkConsuming; split
     · exact SameCore.rfl' s
-    · exact ⟨rfl, rfl, rfl, rfl, rfl, rfl, rfl, rfl, rfl, rfl, rfl, rfl, rfl, rfl, rfl, rfl, rfl⟩
+    · exact ⟨rfl, rfl, rfl, rfl, rfl, rfl, rfl, rfl, rfl, rfl, rfl, rfl, rfl, rfl, rfl, rfl, rfl, rfl⟩
   · intro s; unfold checkConsuming; split <;> exact fun h => h
 
 end SquidModel.Icap
